@@ -114,6 +114,7 @@ def build_designspace(fam, fonts, names=True, filenames=None):
         if "map" in a:
             ax.map = [tuple(p) for p in a["map"]]
         doc.addAxis(ax)
+    pending = []
     for i, m in enumerate(fam["masters"]):
         s = SourceDescriptor()
         s.font = fonts[i]
@@ -124,7 +125,7 @@ def build_designspace(fam, fonts, names=True, filenames=None):
             s.name = m["name"]
         if filenames:
             s.filename = filenames[i]
-        doc.addSource(s)
+        pending.append(s)
     for sp in fam.get("sparse", []):
         s = SourceDescriptor()
         s.font = fonts[sp["master"]]
@@ -134,6 +135,13 @@ def build_designspace(fam, fonts, names=True, filenames=None):
             s.name = "sparse_%s" % sp["layer"]
         if filenames:
             s.filename = filenames[sp["master"]]
+        pending.append(s)
+    # the order of the <source> elements is arbitrary in a designspace: the default
+    # master need not come first
+    order = fam.get("source_order")
+    if order and sorted(order) == list(range(len(pending))):
+        pending = [pending[k] for k in order]
+    for s in pending:
         doc.addSource(s)
     for r in fam.get("rules", []):
         rd = RuleDescriptor()
